@@ -520,10 +520,17 @@ func init() {
 				cur.approx("Atoi of a formatted float: treated as a syntax error unless integral (not modelled)")
 				panic(pathAbort{"unsupported: Atoi(Ftoa(x))"})
 			}
-			// arbitrary symbolic bytes: uninterpreted outcome (documented contract only)
+			// arbitrary symbolic bytes: an uninterpreted FUNCTION of the string (equal strings give
+			// equal outcomes; only the documented contract is assumed)
 			cur.approx("strconv.Atoi on symbolic bytes: uninterpreted (ok, value)")
-			ok := cur.fresh("Bool", "atoi.ok")
-			val := symI{64, true, types.Int, cur.fresh(bvSort(64), "atoi.val")}
+			key := "atoi|" + strSig(args[0])
+			uf, seen := cur.ufCache[key]
+			if !seen {
+				uf = [2]string{cur.fresh("Bool", "atoi.ok"), cur.fresh(bvSort(64), "atoi.val")}
+				cur.ufCache[key] = uf
+			}
+			ok := uf[0]
+			val := symI{64, true, types.Int, uf[1]}
 			if cur.branch(ok) {
 				return tuple{val, iface{}}
 			}
@@ -546,8 +553,14 @@ func init() {
 				return tuple{r, iface{}}
 			}
 			cur.approx("strconv.ParseFloat on symbolic bytes: uninterpreted (ok, value)")
-			ok := cur.fresh("Bool", "pf.ok")
-			val := symF{bits: 64, t: "((_ to_fp 11 53) " + cur.fresh(bvSort(64), "pf.val") + ")"}
+			key := "pf|" + strSig(args[0])
+			uf, seen := cur.ufCache[key]
+			if !seen {
+				uf = [2]string{cur.fresh("Bool", "pf.ok"), cur.fresh(bvSort(64), "pf.val")}
+				cur.ufCache[key] = uf
+			}
+			ok := uf[0]
+			val := symF{bits: 64, t: "((_ to_fp 11 53) " + uf[1] + ")"}
 			if cur.branch(ok) {
 				return tuple{val, iface{}}
 			}
@@ -943,4 +956,19 @@ func init() {
 		x := a[0].(float64)
 		return x != x
 	}
+}
+
+// strSig: a structural signature of a (symbolic) string value
+func strSig(v value) string {
+	ss, ok := liftStr(v)
+	if !ok {
+		return fmt.Sprintf("%T", v)
+	}
+	ss = ss.withConcreteLen() // equal strings must get equal signatures whatever their length term
+	var sb strings.Builder
+	sb.WriteString(lenTerm(ss.n))
+	for _, b := range ss.b {
+		sb.WriteString("," + byteTerm(b))
+	}
+	return sb.String()
 }
